@@ -66,6 +66,27 @@ theorem C02_scalar_table :
     allowedOf "int" = [.int] ∧ allowedOf "bool" = [.bool] := by
   decide
 
+/-- the `datetime` / `date` / `time` rows on typed input: the table lists exactly the cells of the
+conversion table of `DatetimeConverter` (`dtCell`) that are not refusals — the three `id` cells,
+`datetime → date`, `datetime → time`, `date → datetime`; never `time → date / datetime`, never
+`date → time` -/
+theorem C02_datetime_cells :
+    (∀ ty ∈ ["datetime", "date", "time"], ∀ k ∈ ["datetime", "date", "time"],
+      Admits ty (.opaque k) = (dtCell ty k != .refuse)) ∧
+    Admits "date" (.opaque "datetime") = true ∧ Admits "time" (.opaque "datetime") = true ∧
+    Admits "datetime" (.opaque "date") = true ∧
+    Admits "date" (.opaque "time") = false ∧ Admits "datetime" (.opaque "time") = false ∧
+    Admits "time" (.opaque "date") = false := by
+  decide
+
+/-- … and whatever the date/time converter accepts (a `str`, or a typed value — instances of user
+subclasses looked through) is a cell its row lists -/
+theorem C02_datetime_typed_strict {ty : String} {v x : Val}
+    (h : tryC E (.datetime ty) v = .ok x) : (Conv.datetime ty).admitsKind v.base.kind = true := by
+  cases hk : (Conv.datetime ty).admitsKind v.base.kind with
+  | true => rfl
+  | false => rw [leaf_strict _ _ hk] at h; cases h
+
 /-- a scalar converter accepts only instances of its allowed classes (`isinstance(val, self.allowed)`
 comes first, and nothing else can produce a value) -/
 theorem C02_scalar_strict {ty allowed ser e ep} {v x : Val}
@@ -362,6 +383,8 @@ example : (allowedOf "Decimal").any (·.admits (.bool true)) = true ∧
 
 #print axioms C02_admits_spec
 #print axioms C02_scalar_table
+#print axioms C02_datetime_cells
+#print axioms C02_datetime_typed_strict
 #print axioms C02_scalar_strict
 #print axioms C02_scalar_reject
 #print axioms C02_table_strict
